@@ -702,10 +702,21 @@ class ExprMixin:
         else:
             r = z3.Real(fresh_name(hint))
         ax = z3.If(exact >= 0, exact, -exact)
+        # fl = floor(exact), named explicitly (an Int; a Skolem function of the bound variables inside comprehensions)
+        if qs:
+            ff = z3.Function(fresh_name(hint + "_floor"), *[v.sort() for v in qs], z3.IntSort())
+            fl = ff(*qs)
+        else:
+            fl = z3.Int(fresh_name(hint + "_floor"))
+        flr = z3.ToReal(fl)
         facts = z3.And(
+            flr <= exact, exact < flr + 1,
             r >= exact - self.EPS * ax, r <= exact + self.EPS * ax,
-            z3.Implies(z3.And(z3.IsInt(exact), ax <= self.BIG), r == exact),
+            # integers up to 2**53 are representable: an integral exact result is not rounded
+            z3.Implies(z3.And(exact == flr, ax <= self.BIG), r == exact),
             z3.Implies(exact >= 0, r >= 0), z3.Implies(exact <= 0, r <= 0),
+            # rounding is monotone, so the result cannot cross a (representable) integer
+            z3.Implies(ax <= self.BIG, z3.And(r >= flr, r <= flr + 1)),
         )
         if qs:
             guard = z3.And(*[g for _, g in self.qscope])
